@@ -320,6 +320,10 @@ def exec_kernel(mem, op, c, acc):
             if ofm_prec & (1 << 8):
                 sc, sh = op.r("OFM_SCALE", (1, 0))
                 mode = (ofm_prec >> 14) & 3
+                if op.sub == "MUL" and sc != 1:
+                    # the SQUARED_DIFFERENCE lowering programs a multiplier for a 32-bit MUL and states that the hardware ignores it; whether it
+                    # does cannot be pinned offline, so such a stream is not judged
+                    raise Unsupported("32-bit multiply with a scale multiplier")
                 if mode == 0 and (np.abs(r).max(initial=0) >= (1 << 31) or sc >= (1 << 31)):
                     # double rounding on a wide product: SRDHM of the two factors, then the rounding shift
                     r = np.array([_wide_tfl(int(v), int(sc), int(sh)) for v in r.reshape(-1)], dtype=np.int64).reshape(r.shape)
@@ -334,7 +338,14 @@ def exec_kernel(mem, op, c, acc):
         lut = (op.r("ACTIVATION") & 0x1F) >= 16
         oq = q["ofm"]
         if op.sub in ("MIN", "MAX"):
-            r = np.minimum(a, b) if op.sub == "MIN" else np.maximum(a, b)
+            # zero points are removed when the operands are fetched and the OFM zero point is added to the result (register level): with
+            # equal zero points - the only case a TFLite MINIMUM / MAXIMUM allows - this is the raw minimum / maximum; the PRELU lowering
+            # compares a tensor with a non-zero zero point against a scalar 0 with zero point 0
+            za = f.zp
+            zb = D.s16(op.r("IFM2_ZERO_POINT"))
+            if bc & 0x40:
+                za, zb = zb, za
+            r = (np.minimum(a - za, b - zb) if op.sub == "MIN" else np.maximum(a - za, b - zb)) + o.zp
         elif lut and op.sub == "ADD" and bool(bc & 0x80) and sval == qb["zp"]:
             # table-lookup no-op ADD with scalar zero: the pre-table value is the IFM value itself
             r = a
